@@ -347,48 +347,24 @@ impl StandardPathView {
         let seg1 = self.seg1_len();
         let seg2 = self.seg2_len();
 
-        let seg_count;
-
         // Update current info and hop field indices
         let curr_hop_idx = self.curr_hop_field_idx() as usize;
         let curr_info_idx = self.curr_info_field_idx() as usize;
 
-        // Reverse order of segment lengths
-        {
-            match (seg0, seg1, seg2) {
-                (0, ..) => {
-                    // Invalid path, no segments present, nothing to do
-                    return Err(PathReverseError::new(
-                        "Cannot reverse a path with no segments",
-                    ));
-                }
-                (_, 0, _) => {
-                    seg_count = 1;
-                    // Only seg0 is present, nothing to do
-                }
-                (_, _, 0) => {
-                    seg_count = 2;
-                    // Swap seg0 and seg1
-                    // SAFETY: Total number of hop fields is unchanged
-                    unsafe {
-                        self.set_seg0_len(seg1);
-                        self.set_seg1_len(seg0);
-                    }
-                }
-                (..) => {
-                    seg_count = 3;
-                    // All segments are present, swap seg0 with seg2, and keep seg1 in the middle
-                    // SAFETY: Total number of hop fields is unchanged
-                    unsafe {
-                        self.set_seg0_len(seg2);
-                        self.set_seg1_len(seg1);
-                        self.set_seg2_len(seg0);
-                    }
-                }
+        let seg_count = match (seg0, seg1, seg2) {
+            (0, ..) => {
+                // Invalid path, no segments present, nothing to do
+                return Err(PathReverseError::new(
+                    "Cannot reverse a path with no segments",
+                ));
             }
-        }
+            (_, 0, _) => 1,
+            (_, _, 0) => 2,
+            (..) => 3,
+        };
 
-        // Check if path is valid
+        // Check if path is valid. All checks are done before the first write, so that a failed
+        // reversal leaves the path untouched.
         let total_hops = seg0 as usize + seg1 as usize + seg2 as usize;
         if curr_hop_idx >= total_hops {
             return Err(PathReverseError::new(
@@ -399,6 +375,35 @@ impl StandardPathView {
             return Err(PathReverseError::new(
                 "Current info field index is out of bounds",
             ));
+        }
+        if (total_hops - curr_hop_idx) - 1 > StdPathMetaLayout::CURR_HOP_FIELD_RNG.max_uint() {
+            return Err(PathReverseError::new(
+                "Reversed current hop field position does not fit the CurrHF field",
+            ));
+        }
+
+        // Reverse order of segment lengths
+        match seg_count {
+            1 => {
+                // Only seg0 is present, nothing to do
+            }
+            2 => {
+                // Swap seg0 and seg1
+                // SAFETY: Total number of hop fields is unchanged
+                unsafe {
+                    self.set_seg0_len(seg1);
+                    self.set_seg1_len(seg0);
+                }
+            }
+            _ => {
+                // All segments are present, swap seg0 with seg2, and keep seg1 in the middle
+                // SAFETY: Total number of hop fields is unchanged
+                unsafe {
+                    self.set_seg0_len(seg2);
+                    self.set_seg1_len(seg1);
+                    self.set_seg2_len(seg0);
+                }
+            }
         }
 
         debug_assert!(
